@@ -818,7 +818,7 @@ def ref_value(inp):
     while i < len(raw):
         if raw[i] != 0x5c:
             out.append(raw[i]); i += 1
-        elif i + 2 < len(raw) + 0 and raw[i + 1] in HEXDIGITS and raw[i + 2] in HEXDIGITS:
+        elif i + 2 < len(raw) and raw[i + 1] in HEXDIGITS and raw[i + 2] in HEXDIGITS:
             out.append(int(raw[i + 1:i + 3], 16)); i += 3
         else:
             return rest, None
